@@ -419,6 +419,45 @@ def twin_cases():
     return out
 
 
+def lambda_name_cases():
+    """The name a lambda has in a trace: every function - named, method, lambda - numbers the lambdas written directly in its body from 0 in
+    source order; a lambda nested in a lambda starts again at lambda-0, and lambdas that follow a nesting lambda continue the outer count."""
+    out = []
+    for stmt, kind, first in SIMPLE_FAILS:
+        lines = ["var first = || 1;", "var outer = || {", "    var inner_a = || 2;", "    var inner_b = || {", "        " + stmt, "    };", "    return inner_b();", "};",
+                 "var later = || {", "    return outer();", "};", "later();"]
+        out.append(("\n".join(lines) + "\n", {}, kind, first, ['[module "main", line 5] in lambda-1()', '[module "main", line 7] in lambda-1()', '[module "main", line 10] in lambda-2()',
+                                                                '[module "main", line 12] in script']))
+        lines = ["fn named() {", "    var l0 = || 0;", "    var l1 = || {", "        var n0 = || {", "            " + stmt, "        };", "        var n1 = || n0();", "        return n1();", "    };",
+                 "    var l2 = || l1();", "    return l2();", "}", "var s0 = || named();", "s0();"]
+        out.append(("\n".join(lines) + "\n", {}, kind, first, ['[module "main", line 5] in lambda-0()', '[module "main", line 7] in lambda-1()', '[module "main", line 8] in lambda-1()',
+                                                                '[module "main", line 10] in lambda-2()', '[module "main", line 11] in named()', '[module "main", line 13] in lambda-0()',
+                                                                '[module "main", line 14] in script']))
+        lines = ["#[constructor(new)]", "class K {", "    fn m(self) {", "        var a = || {", "            var deep = || {", "                " + stmt, "            };", "            return deep();", "        };",
+                 "        var b = || a();", "        return b();", "    }", "}", "K.new().m();"]
+        out.append(("\n".join(lines) + "\n", {}, kind, first, ['[module "main", line 6] in lambda-0()', '[module "main", line 8] in lambda-0()', '[module "main", line 10] in lambda-1()',
+                                                                '[module "main", line 11] in m()', '[module "main", line 14] in script']))
+    return out
+
+
+def simultaneous_error_cases():
+    """Two things wrong with ONE call: the wrong number of arguments, made from the deepest frame a fiber may have (the call would also
+    exceed the frame limit).  The report is the arity error (the callee is never entered); one frame shallower, and with the right
+    number of arguments at the limit, each condition alone is reported as itself.  For a function, a method and a lambda."""
+    out = []
+    forms = [("function", ["fn leaf(x) {", "    return x;", "}"], "leaf(%s)"),
+             ("method", ["#[constructor(new)] class L {", "    fn leaf(self, x) { return x; } }", "var obj = L.new();"], "obj.leaf(%s)"),
+             ("lambda", ["var leaf = |x| x;", "var pad1 = 0;", "var pad2 = 0;"], "leaf(%s)")]
+    arity = "Unhandled TypeError: Expected 1 arguments but found 0."
+    depth = "Unhandled IndexError: Stack overflow."
+    for name, decl, call in forms:
+        limit = 62          # the script, then dive(62) .. dive(0): 64 frames; the call made from dive(0) would be the 65th
+        for n, arg, kind, first in ((limit, "", "TypeError", arity), (limit - 1, "", "TypeError", arity), (limit, "1", "IndexError", depth)):
+            lines = decl + ["fn dive(n) {", "    if n == 0 {", "        return %s;" % (call % arg), "    }", "    return dive(n - 1);", "}", "dive(%d);" % n]
+            out.append(("\n".join(lines) + "\n", {}, kind, first, ['[module "main", line 6] in dive()'] + ['[module "main", line 8] in dive()'] * n + ['[module "main", line 10] in script']))
+    return out
+
+
 def reraised_cases():
     """The same failure happens twice: the first time it is caught and the handler CHANGES the error object it was given (its context, a
     new field); the second time it is not caught.  The report of the second failure is that failure's own class, message and lines."""
@@ -453,7 +492,7 @@ def correspondence(ctx, model_ok=True):
     n_corpus = len(cases)
     cases += long_file_cases()
     cases += runaway_cases()
-    cases += twin_cases() + reraised_cases()
+    cases += twin_cases() + reraised_cases() + lambda_name_cases() + simultaneous_error_cases()
     cases += [gen_trace_program(rng.fork("t%d" % i)) for i in range(n_tr)]
     plist = [("trace%d" % i, c[0], c[1]) for i, c in enumerate(cases)]
     nontrivial = set()
